@@ -256,10 +256,28 @@ class C01(fw.Prop):
                     raise
                 except Exception:  # noqa
                     pass
+            if d.get("prev"):
+                # the same value from an object that was built and serialised as another value of this kind before and then
+                # given these field values one by one (nested descriptors included)
+                g = build(d["prev"])
+                g.to_bytes()
+                fw.transplant(g, build(d))
+                again = g.to_bytes()
+                if bytes(again) != bytes(bs):
+                    return "ok " + fw.hx(bs) + " re-used-object-encodes-to: " + fw.hx(again)[:160]
             back = XDlmsApduFactory.apdu_from_bytes(bs)
             want = canon(o)
             if canon(back) != want:
                 return "ok " + fw.hx(bs) + " decoded-differs: " + canon(back)[:120] + " != " + want[:120]
+            # what the decoder hands out is a value of the same kind: it encodes to the same bytes
+            try:
+                rb_ = bytes(back.to_bytes())
+            except fw._Timeout:
+                raise
+            except Exception as e:  # noqa
+                rb_ = ("raised " + type(e).__name__).encode()
+            if rb_ != bytes(bs):
+                return "ok " + fw.hx(bs) + " decoded-value-encodes-to: " + (fw.hx(rb_)[:160] if not rb_.startswith(b"raised") else rb_.decode())
             # ... nor may what the caller does with an earlier result: the decoded value is overwritten in place, then the same
             # bytes are decoded again
             fw.scribble(back)
@@ -293,7 +311,14 @@ class C01(fw.Prop):
         return []
 
     def cases(self, rng, tier, deep):
-        mk = self.make_case
+        last = {}
+
+        def mk(d):
+            # every value is also produced from a re-used object: the previous value of the same kind
+            if d["k"] in last and not d.get("sel"):
+                d = dict(d, prev=last[d["k"]])
+            last[d["k"]] = {x: v for x, v in d.items() if x != "prev"}
+            return self.make_case(d)
         N = [0, 1, 255, 256, 65535, 65536, 2 ** 24 - 1, 2 ** 24 + 1, 2 ** 32 - 1]
         LENS = [0, 1] + list(range(122, 130)) + list(range(250, 258)) + ([65530, 65535, 65536, 65540] if deep else [65536])
 
@@ -371,6 +396,10 @@ class C01(fw.Prop):
                 for qos in (0, 1, 255):
                     yield mk(dict(k="ireq", key=key, ra=ra, qos=qos, ver=rng.choice([6, 0, 255]), conf=rng.getrandbits(17), maxpdu=rng.choice([0, 1200, 65535])))
         yield mk(dict(k="ireq", key="", ra=1, qos=0, qos_none=True, ver=6, conf=0x1F0B2, maxpdu=65535))
+        # dedicated keys that contain what follows them in the APDU (the conformance tag 5F 1F 04, presence flags, the version)
+        for key in ("5f1f04" + rb(13), rb(13) + "5f1f04", rb(6) + "5f1f04" + rb(7), "5f1f0400" + rb(28), "1f04" + rb(93), "0006" + rb(14), "01005f1f" + rb(12),
+                    "5f1f04" * 5 + "00"):
+            yield mk(dict(k="ireq", key=key, ra=rng.randint(0, 1), qos=0, ver=6, conf=rng.getrandbits(17), maxpdu=1200))
         for k in range(17):
             yield mk(dict(k="ireq", key="", ra=1, qos=0, ver=6, conf=1 << k, maxpdu=1200))
             yield mk(dict(k="ires", qos=0, ver=6, conf=1 << k, maxpdu=500))
